@@ -232,7 +232,19 @@ func vfPcExec(sc *vfPcScript, mk func(sc *vfPcScript) (vfPcTarget, error)) ([]vf
 					r.mu.Unlock()
 				}
 				r.add(vfM{"a": "call", "p": st.ID, "g": g, "s": key, "bits": vfPcBits(h, pl), "pkt": vfPcRec(h, pl)})
-				_, werr := w.Write(h, pl, interceptor.Attributes{})
+				var werr error
+				wdone := make(chan struct{})
+				go func() {
+					defer close(wdone)
+					_, werr = w.Write(h, pl, interceptor.Attributes{})
+				}()
+				select {
+				case <-wdone:
+				case <-time.After(20 * time.Second): // a Write that does not come back (never accepted: the script ends here)
+					r.add(vfM{"a": "stuck", "p": st.ID})
+
+					return
+				}
 				r.add(vfM{"a": "ret", "p": st.ID, "ok": werr == nil})
 				// the caller may reuse its buffers as soon as Write has returned
 				for j := range pl {
